@@ -23,7 +23,8 @@ RULE = (
     "between / at the floor and ceiling midpoint of / outside the publications on a bare Output>>Input link; payloads "
     "scalar/list/ndarray/masked/Quantity x flat/shaped/time axis/stacked/malformed x NoGrid and UniformGrid infos x unit "
     "pairs (same, equivalent, convertible incl. offset and non-dyadic factors, incompatible) x masks FLEX/NONE/explicit; "
-    "a separate stream for the memory-sharing rule (views, strided views, copies, same object, converted). "
+    "a separate stream for the memory-sharing rule (views, strided views, copies, same object, converted); a stream with 2-3 "
+    "consumers on one output (direct / behind Scale(1.0)), per-consumer forward requests that are mutually out of step plus backwards requests. "
     "non-trivial = a served request strictly between two publications, or a delivered non-scalar payload; "
     "distinct by canonical case hash"
 )
@@ -33,7 +34,7 @@ TRUSTED = [
     "float results are compared with the exact rational model value with tolerance 2^-40 relative (IEEE rounding outside the model)",
 ]
 ASSUMPTIONS = [
-    "same grid object on both ends of the link (layout transforms are C15); one consumer",
+    "same grid object on both ends of the link (layout transforms are C15); 1-3 consumers per output, pass-through adapter Scale(1.0) only",
     "no nearly-equal units (np.isclose in equivalent_units); zero-size arrays are not generated",
     "a mask with no bit set and no mask at all are identified (numpy turns 0-d masked arrays with nothing masked into scalars)",
     "payload of shape (k, *data_shape), k > 1, on a structured grid is accepted as k stacked time entries (documented finam "
@@ -280,6 +281,47 @@ def _gen_share_case(rng):
     return {"grid": g, "uo": uo, "ui": ui, "mask": "flex", "in_mask": "flex", "ops": ops}
 
 
+def _gen_multi_case(rng):
+    """one output, 2-3 consumers (direct or behind Scale(1.0)) that are not in lockstep: per-consumer mostly non-decreasing
+    requests, mutually out of step, plus some backwards requests"""
+    g = dict(rng.choice([{"kind": "no", "dsh": []}, {"kind": "no", "dsh": []}, {"kind": "no", "dsh": [-1]},
+                         {"kind": "uni", "dims": [3, 4], "order": "F", "rev": False, "loc": "cells"},
+                         {"kind": "uni", "dims": [4], "order": "F", "rev": False, "loc": "cells"}]))
+    grp = rng.choice([["m", "km", "cm", "mm"], ["s", "min", "h"], ["Hz", "1/s", "1/min"], ["m/s", "km/h", "mm/d"]])
+    uo = rng.choice(grp)
+    consumers = [{"kind": rng.choice(["direct", "direct", "scale"]), "ui": rng.choice(grp + [None])} for _ in range(rng.choice([2, 2, 3]))]
+    npush = rng.randint(4, 10)
+    ts, gaps = _gen_times(rng, npush)
+    ops, pubs, k = [], [], 0
+    last = [None] * len(consumers)
+    first = rng.randint(2, min(4, npush))
+    while len(ops) < 22:
+        if k < len(ts) and (k < first or rng.random() < 0.25):
+            ops.append(["push", ts[k], _gen_payload(rng, g, uo, "flex", k, False, False)])
+            pubs.append(ts[k])
+            k += 1
+            continue
+        c = rng.randrange(len(consumers))
+        lo = last[c] if last[c] is not None else pubs[0]
+        mode = rng.random()
+        if mode < 0.15 and last[c] is not None:
+            known = [x for x in last if x is not None]
+            r = rng.randint(min(known), last[c])  # backwards, possibly still inside the retained range
+        elif mode < 0.5:
+            r = rng.choice([p for p in pubs if p >= lo] or [pubs[-1]])  # on a publication, anywhere ahead
+        elif mode < 0.7:
+            r = pubs[-1] - rng.choice([0, 0, 1, gaps[0] // 2])  # jump to the newest
+            r = max(r, lo)
+        else:
+            r = _gen_request(rng, pubs, lo, gaps, False)
+        ops.append(["pull", r, c])
+        if pubs[0] <= r <= pubs[-1]:
+            last[c] = r
+        if k >= len(ts) and rng.random() < 0.15:
+            break
+    return {"grid": g, "uo": uo, "ui": consumers[0]["ui"], "consumers": consumers, "mask": "flex", "in_mask": "flex", "ops": ops}
+
+
 def _p(shape, vals, wrap="array", mask=None, units=None, buf=None):
     return {"shape": shape, "vals": vals, "wrap": wrap, "mask": mask, "units": units, "buf": buf}
 
@@ -324,6 +366,14 @@ CORPUS = [
 CORPUS.append({"grid": _NG0, "uo": "mm/d", "ui": "mm/d", "mask": "flex", "in_mask": "same",
                "ops": [["push", 86400000000, _p([], [0], "qty_masked", mask=[False], units="m/s")], ["pull", 86400000000],
                        ["push", 86400000001, _p([], [16], "qty_masked", mask=[True], units="m/s")], ["pull", 86400000001]]})
+# two consumers out of step (seeded mutant C08_c): daily publications, consumer 0 pulls day 8, then consumer 1 pulls day 0;
+# a consumer behind Scale; a backwards request inside the retained range
+_DAY = 86400 * 10**6
+CORPUS.append({"grid": _NG0, "uo": "m", "ui": "m", "consumers": [{"kind": "direct", "ui": "m"}, {"kind": "direct", "ui": "km"}, {"kind": "scale", "ui": None}],
+               "mask": "flex", "in_mask": "flex",
+               "ops": [["push", d * _DAY, _p([], [8 * d], "scalar")] for d in range(10)]
+                      + [["pull", 8 * _DAY, 0], ["pull", 0, 1], ["pull", 1 * _DAY, 2], ["pull", 3 * _DAY + 1, 1], ["pull", 9 * _DAY, 0],
+                         ["pull", 2 * _DAY, 2], ["pull", 1 * _DAY + 5, 2], ["pull", 6 * _DAY, 1], ["pull", 4 * _DAY, 1], ["pull", 9 * _DAY, 2], ["pull", 9 * _DAY, 1]]})
 # witness of KNOWN finding F21: converting a fully masked 0-d quantity yields numpy's np.ma.masked singleton, so the second
 # such publication "shares memory" with the first although the caller's buffers are distinct (finam refuses it)
 CORPUS.append({"grid": _NG0, "uo": "km/h", "ui": "km/h", "mask": "flex", "in_mask": "flex",
@@ -341,6 +391,8 @@ def generate(rng, tier):
     for i in range(n):
         if i % 5 == 4:
             cases.append(_gen_share_case(rng))
+        elif i % 5 == 2:
+            cases.append(_gen_multi_case(rng))
         else:
             cases.append(_gen_case(rng, malformed=(i % 5 == 3), exact=(i % 5 == 0)))
     return cases
@@ -384,6 +436,11 @@ def _unit_name(u):
     return "?" + str(u)
 
 
+def _consumers(case):
+    """consumers of the output: [{"kind": "direct" | "scale", "ui": units or None}]; old-style cases have one direct consumer"""
+    return case.get("consumers") or [{"kind": "direct", "ui": case["ui"]}]
+
+
 def run_impl(case):
     t0 = T(0)
     grid = make_grid(case["grid"])
@@ -391,17 +448,27 @@ def run_impl(case):
     order = getattr(grid, "order", "C")
     mask_out = _mask_arg(case["mask"], gshape)
     out = fm.Output(name="Out")
-    inp = fm.Input(name="In")
-    out >> inp
-    inp.ping()
+    consumers = _consumers(case)
+    inputs = []
+    for i, c in enumerate(consumers):
+        inp = fm.Input(name=f"In{i}")
+        if c["kind"] == "scale":
+            out >> fm.adapters.Scale(1.0) >> inp
+        else:
+            out >> inp
+        inputs.append(inp)
+    for inp in inputs:
+        inp.ping()
     out.push_info(fm.Info(time=t0, grid=grid, units=case["uo"], mask=mask_out))
     in_mask = fm.Mask.FLEX if case.get("in_mask", "flex") == "flex" else mask_out
-    in_kwargs = {} if case["ui"] is None else {"units": case["ui"]}
-    if case["ui"] is None:
-        inp.exchange_info(fm.Info(time=t0, grid=grid, units=None, mask=in_mask))
-    else:
-        inp.exchange_info(fm.Info(time=t0, grid=grid, mask=in_mask, **in_kwargs))
-    cons_units = _unit_name(inp.info.units)
+    for inp, c in zip(inputs, consumers):
+        if c["ui"] is None:
+            inp.exchange_info(fm.Info(time=t0, grid=grid, units=None, mask=in_mask))
+        else:
+            inp.exchange_info(fm.Info(time=t0, grid=grid, mask=in_mask, units=c["ui"]))
+    cons_units = [_unit_name(inp.info.units) for inp in inputs]
+    # the key under which the output knows each consumer (the final input, also behind pass-through adapters)
+    assert [k for k in out._connected_inputs] == inputs
 
     pools = [np.array([float(pool_val(k, i)) for i in range(POOL_LEN)]) for k in range(2)]
     allocs = {}  # id(base ndarray) -> small int
@@ -465,15 +532,16 @@ def run_impl(case):
         else:
             oldest = us_of(out.data[0][0]) if out.data else None
             newest = us_of(out.data[-1][0]) if out.data else None
+            k = op[2] if len(op) > 2 else 0
             try:
-                d = inp.pull_data(T(op[1]))
+                d = inputs[k].pull_data(T(op[1]))
                 m = d.magnitude
                 res = {"shape": [int(x) for x in m.shape], "vals": _frac_list(np.ma.getdata(m)),
                        "mask": [bool(x) for x in np.ma.getmaskarray(m).ravel()] if isinstance(m, np.ma.MaskedArray) else None,
                        "units": _unit_name(d.units)}
             except Exception as e:  # noqa
                 res = err_class(e)
-            events.append({"op": "pull", "t": op[1], "res": res, "oldest": oldest, "newest": newest})
+            events.append({"op": "pull", "t": op[1], "k": k, "res": res, "oldest": oldest, "newest": newest})
     return {"gshape": gshape, "order": order, "cons_units": cons_units, "events": events}
 
 
@@ -510,8 +578,8 @@ def coq_case(case, obs):
             ops.append(C("LPush", Z(ev["t"]), C("mkP", _coq_arr(p["shape"], p["vals"], p["mask"]),
                                                 NONE if p["units"] is None else Some(_coq_unit(p["units"])), buf)))
         else:
-            ops.append(C("LPull", Z(ev["t"])))
-    return P(C("mkC", inf, _coq_unit(obs["cons_units"])), L(ops))
+            ops.append(C("LPull", N(ev.get("k", 0)), Z(ev["t"])))
+    return P(C("mkC", inf, L(_coq_unit(u) for u in obs["cons_units"])), L(ops))
 
 
 def coq_obs(case, obs):
@@ -621,7 +689,6 @@ def _sim(case, obs):
     pubs = []  # accepted publications: {"t", "payload", "form"}
     between = False
     nonscalar = False
-    cons = obs["cons_units"]
     for ev in obs["events"]:
         if ev["op"] == "push":
             p = ev["payload"]
@@ -645,6 +712,7 @@ def _sim(case, obs):
                 pubs.append({"t": ev["t"], "payload": p, "form": form})
             continue
         t, r = ev["t"], ev["res"]
+        cons = obs["cons_units"][ev.get("k", 0)]
         if ev["oldest"] is None:
             if r != "NoDataError":
                 fails.append(f"pull t={t} before any publication returned {r if isinstance(r, str) else 'data'}")
@@ -731,7 +799,8 @@ def distribution(cases, obss):
     for c, o in zip(cases, obss):
         if "events" not in o:
             continue
-        unitpairs[f"{c['uo']}->{c['ui']}"] += 1
+        for cc in _consumers(c):
+            unitpairs[f"{c['uo']}->{cc['ui']}"] += 1
         for op in c["ops"]:
             if op[0] == "push":
                 wraps[op[2]["wrap"] + ("+view" if op[2].get("buf") else "")] += 1
